@@ -145,4 +145,9 @@ def plan(ctx):
     for v in ('string', 'argv'):
         qs.append(vf.Query('thin/%s_input' % v, unit, os.path.join(vf.VERIF, 'harness', 'c07_thin.c'), defines={'LMAX': 6}, cbmc_defines={'VF_SPLIT': 1, 'V_' + v: 1}, unwind=9, mem_gb=2,
                            bounds={'bytes': 6}, note='%s_input presents exactly the given bytes and starts at byte 0, line 1, column 1' % v))
+    # every multi-byte single-unit rule of C10 (UTF-8/16/32, uintN, string/istring ...) with C10's specifications, over an input that grants exactly the
+    # look-ahead a rule requests (size( n ) == min( n, remaining )): a rule that judges "enough input" from a smaller request than the bytes it reads,
+    # or reads what it never requested, behaves differently on buffered inputs than on memory inputs
+    from props import C10
+    qs += C10.plan_with(ctx, input_t='vf::stingy_in', prefix='stingy/', unit_prefix='c07s_', min_k=2)
     return qs
